@@ -77,6 +77,7 @@ def run(ck, F, tier):
     ck.rule("A2", "per rate: the set of (row block, col block, permutation) written by h() equals the Blue Book protograph; every write is in the loop i in 0..M")
     ck.rule("A3", "per block: first write insert, further writes toggle")
     ck.rule("A4", "THETA_K = standard theta_k; PHI_K shape/bounds/zero rows/pinned values; index shapes; pi_k formula normal form")
+    ck.rule("A6", "the user-facing identifiers (rate string, information block size) select the AR4JA rate / size of the same name; anything else rejected")
     ck.rule("A5", "C2: circulant table shape/bounds/pinned; constants; expansion normal form")
     ck.assume("Blue Book tables as transcribed in the rule (M table, theta_k, protograph); phi_k and C2 circulants are tree references "
               "(values of the pinned commit) confirmed structurally")
@@ -305,3 +306,5 @@ def run(ck, F, tier):
                 if mm["path"] == "codes::ccsds::C2Code::" + cname:
                     got = mm.get("int")
         ck.inst("A5", "c2:const:" + cname, got == want, cb.span, "%s = %s (required %d)" % (cname, got, want))
+    from .c20 import cli_ccsds_tables
+    cli_ccsds_tables(ck, F, "A6")
